@@ -216,6 +216,7 @@ def api_level(ctx, by_cfg):
                                   "%s: text produced for %s after processing %s differs from the text produced alone (%s vs %s)" % (
                                       b.cfg.id, rel, prev, summarize(got), summarize(exp)),
                                   {"cfg": b.cfg.id, "sequence": seq, "position": pos})
+    ctx.require(nseq_total >= 40 and picks, "only %d API sequences on %d workbench builds" % (nseq_total, len(picks)))
     ctx.extra["api_sequences"] = nseq_total
 
 
